@@ -83,7 +83,7 @@ End == /\ Ev("end") /\ Consume
 LHandle == /\ Ev("l-handle") /\ Consume /\ localuse' = (localuse \/ E.e = 0 - 1)
            /\ UNCHANGED <<hostile, reacted, lcalls, lresults, closes, closereturns, done, tclosed, shut, caps, hostileq>>
 Passive == /\ (Ev("app-start") \/ Ev("app-cancelled") \/ Ev("reported") \/ Ev("fault") \/ Ev("quiesce") \/ Ev("quiesce-refs") \/ Ev("l-bootstrap")
-               \/ Ev("l-release") \/ Ev("peer-deliver") \/ Ev("peer-echo") \/ Ev("held") \/ Ev("hold-expired") \/ Ev("released") \/ Ev("l-cancel"))
+               \/ Ev("l-release") \/ Ev("peer-deliver") \/ Ev("peer-echo") \/ Ev("held") \/ Ev("hold-expired") \/ Ev("released") \/ Ev("l-cancel") \/ Ev("policy"))
            /\ Consume /\ UNCHANGED <<hostile, reacted, lcalls, lresults, closes, closereturns, done, tclosed, shut, caps, hostileq, localuse>>
 \* there is no action for: "send-after-close", "close-hung", "not-done", a "view" that is not free
 
